@@ -163,7 +163,7 @@ def e_container_props(doc, rnd):
 
 
 def e_null_admitting(doc, rnd):
-    doc["structures"].append({"name": "VerifNullable", "properties": [prop("required", orn(S)), prop("maybe", orn(ref("Range")), True), prop("n", orn(I)), prop("items", orn(arr(ref("Position"))))]})
+    doc["structures"].append({"name": "VerifNullable", "properties": [prop("required", orn(S)), prop("maybe", orn(ref("Range")), True), prop("n", orn(I)), prop("items", orn(arr(ref("Position")))), {**prop("explicitlyRequired", orn(S)), "optional": False}, {**prop("explicitlyRequiredPlain", U), "optional": False}]})
     struct(doc, optional_sites(doc, rnd, 1)[0])["properties"].append(prop("verifNullable", ref("VerifNullable"), True))
 
 
@@ -210,7 +210,7 @@ def e_redeclared_property(doc, rnd):
 
 def e_enums(doc, rnd):
     doc["enumerations"] += [
-        {"name": "VerifColor", "type": {"kind": "base", "name": "string"}, "values": [{"name": "Red", "value": "red"}, {"name": "Green", "value": "green", "proposed": True}, {"name": "Empty", "value": ""}, {"name": "Thumb", "value": "ok\U0001F44D"}, {"name": "Umlaut", "value": "gr\u00fcn"}, {"name": "Spaced", "value": "dark red"}]},
+        {"name": "VerifColor", "type": {"kind": "base", "name": "string"}, "values": [{"name": "Red", "value": "red"}, {"name": "Green", "value": "green", "proposed": True}, {"name": "Empty", "value": ""}, {"name": "Thumb", "value": "ok\U0001F44D"}, {"name": "Umlaut", "value": "gr\u00fcn"}, {"name": "Spaced", "value": "dark red"}, {"name": "UnitSeparated", "value": "a\u001fb"}]},
         {"name": "VerifLevel", "type": {"kind": "base", "name": "uinteger"}, "values": [{"name": "Zero", "value": 0}, {"name": "Low", "value": 1}, {"name": "High", "value": 2, "proposed": True}]},
     ]
     next(e for e in doc["enumerations"] if e["name"] == "DiagnosticTag")["values"].append({"name": "Experimental", "value": 3, "proposed": True})
@@ -298,6 +298,7 @@ def e_nested_containers(doc, rnd):
         prop("verifNullableNames", arr(orn(S)), True),
         prop("verifNullableCounts", {"kind": "map", "key": S, "value": orn(I)}, True),
         prop("verifNullablePair", {"kind": "tuple", "items": [U, orn(S)]}, True),
+        prop("verifPairWithNull", {"kind": "tuple", "items": [U, {"kind": "base", "name": "null"}]}, True),
     ]
 
 
@@ -316,7 +317,20 @@ def e_message_shapes(doc, rnd):
     add_request(doc, "verif/kindByName", "VerifKindByNameRequest", None, {"kind": "map", "key": S, "value": ref("DiagnosticSeverity")})
     add_request(doc, "verif/names", "VerifNamesRequest", ref("VerifEmpty"), arr(S), messageDirection="serverToClient")
     add_notification(doc, "verif/ping", "VerifPingNotification", None)
+    add_notification(doc, "$/VERIFPING", "VerifUpperPingNotification", None)
+    add_request(doc, "$/VERIFGC", "VerifUpperGcRequest", None, {"kind": "base", "name": "null"})
     add_notification(doc, "textDocument/verifDidQuery", "VerifDidQueryNotification", ref("VerifQueryParams"), messageDirection="clientToServer", registrationOptions=ref("VerifQueryRegistrationOptions"))
+
+
+def e_nullable_request_params(doc, rnd):
+    """A request whose params type admits null.  Schema-valid, but outside what the python / rust / dotnet plugins process (they require
+    the params of a message to be a reference); the testdata plugin does process it, so it is checked on its own (RESTRICTED)."""
+    add_request(doc, "verif/activeDocument", "VerifActiveDocumentRequest", orn(ref("TextDocumentIdentifier")), orn(ref("Range")))
+    add_notification(doc, "verif/didFocus", "VerifDidFocusNotification", orn(ref("TextDocumentIdentifier")))
+
+
+# edits that only some plugins can process: name -> (function, plugins to run, sub-checks to run)
+RESTRICTED = {"nullable-message-params": (e_nullable_request_params, [], ["C17"])}
 
 
 EDITS: List[Edit] = [
@@ -345,6 +359,7 @@ def evolve(doc: Dict, names: List[str], seed: int) -> Dict:
     d = copy.deepcopy(doc)
     rnd = random.Random(seed)
     table = dict(EDITS)
+    table.update({k: v[0] for k, v in RESTRICTED.items()})
     for n in names:
         table[n](d, rnd)
     return d
